@@ -722,7 +722,11 @@ func genSetValue(t *rapid.T, op *editOp, nonFinite bool) {
 			op.U = rapid.Uint64().Draw(t, "u")
 		}
 	case "SetFloat":
-		switch rapid.IntRange(0, 3).Draw(t, "fk") {
+		switch rapid.IntRange(0, 4).Draw(t, "fk") {
+		case 4: // large integer-valued floats (2^53 .. 2^70), where shortest-digit generation works near the ulp
+			e := rapid.IntRange(53, 70).Draw(t, "fexp")
+			m := rapid.Uint64().Draw(t, "fmant")&(1<<52-1) | 1
+			op.F = uint64(1023+e)<<52 | m
 		case 0:
 			op.F = math.Float64bits(interestingFloats[rapid.IntRange(0, len(interestingFloats)-1).Draw(t, "fi")])
 		case 1:
